@@ -5,6 +5,7 @@ import (
 	"crypto"
 	"fmt"
 	"strings"
+	"time"
 
 	"golang.org/x/crypto/sha3"
 
@@ -72,6 +73,8 @@ var (
 	c19blockfill   = core.RegCounter("c19.fault.blockfill")
 	c19fill        = core.RegCounter("c19.fault.fill")
 	c19noise       = core.RegCounter("c19.fault.random_noise")
+	c19pattern     = core.RegCounter("c19.fault.structured_pattern")
+	c19hang        = core.RegCounter("c19.calls_that_did_not_return")
 	c19valid       = core.RegCounter("c19.fault.none_control")
 	c19accepted    = core.RegCounter("c19.faulted_input_accepted")
 	c19rejected    = core.RegCounter("c19.faulted_input_rejected")
@@ -636,6 +639,9 @@ func c19Targets() []c19Target {
 	return append(ts, c19MoreTargets()...)
 }
 
+// c19Timeout: "terminates" is decided with a real-time limit far above any legitimate cost.
+const c19Timeout = 20 * time.Second
+
 var c19T []c19Target
 
 func init() {
@@ -679,6 +685,19 @@ func c19Faults(g *Gen, a []byte, visit func(kind int, name string, b []byte)) {
 	}
 	visit(c19fill, "fill", make([]byte, n))
 	visit(c19fill, "fill", bytes.Repeat([]byte{0xff}, n))
+	if n == 32 {
+		// structured values a torn or zero-filled write produces: a single set bit, a run of low bits
+		for k := 0; k < 256; k++ {
+			b := make([]byte, 32)
+			b[k/8] = 1 << uint(k%8)
+			visit(c19pattern, "pattern", b)
+			for j := 0; j < k/8; j++ {
+				b[j] = 0xff
+			}
+			b[k/8] = byte(1<<uint(k%8+1) - 1)
+			visit(c19pattern, "pattern", b)
+		}
+	}
 	for i := 0; i < 24; i++ {
 		l := g.T.W(2*n + 2)
 		visit(c19noise, "noise", g.Bytes(l))
@@ -721,6 +740,9 @@ func runC19(e *Env, r *core.Run) {
 	accepted, rejected := 0, 0
 	reported := map[string]bool{}
 	c19Faults(g, a, func(kind int, fname string, b []byte) {
+		if Hung {
+			return
+		}
 		r.Count(c19cases)
 		r.Count(kind)
 		r.AddSteps(1)
@@ -732,7 +754,7 @@ func runC19(e *Env, r *core.Run) {
 			gb = NewGuarded(b)
 			b = gb.B()
 		}
-		pan, msg := Guard(func() { res = tg.try(c, prev, b) })
+		returned, pan, msg := GuardTimeout(c19Timeout, func() { res = tg.try(c, prev, b) })
 		fail := func(class, what, format string, args ...interface{}) {
 			key := tg.name + "/" + fname
 			if reported[class+key] {
@@ -740,6 +762,11 @@ func runC19(e *Env, r *core.Run) {
 			}
 			reported[class+key] = true
 			r.Fail(class, key, "%s on %s input %x (len %d): %s", tg.name, what, b, len(b), fmt.Sprintf(format, args...))
+		}
+		if !returned {
+			r.Count(c19hang)
+			fail("does-not-terminate", fname, "the call did not return within %v (it normally takes microseconds)", c19Timeout)
+			return
 		}
 		if gb != nil {
 			if content, guard := gb.Intact(); !content || !guard {
